@@ -163,7 +163,7 @@ var props = map[string]propCfg{
 		MinNontriv: 30,
 	},
 	"C07": {
-		Quick:    tierCfg{Shards: 8, Checks: 120, Timeout: 4 * time.Minute},
+		Quick:    tierCfg{Shards: 8, Checks: 400, Timeout: 4 * time.Minute},
 		Thorough: tierCfg{Shards: 16, Checks: 2500, Timeout: 40 * time.Minute},
 		Rule: "compiling patches that put captured code where it may not fit (38 templates: expression holes reproduced in if/for/switch headers, selectors, index and composite positions, type positions, labels, statements <-> expressions; fillers include composite literals, key:value pairs, variadic x..., type expressions, func literals), template-grammar ill-typed patches, and mined patterns on real hosts; every case is run through the library API and through the CLI in 8 mode x flag combinations (in place, --print-only, --diff, each with and without --skip-import-processing, plus --skip-generated and -v). Oracle: every content emitted with exit status 0 (file bytes after an in-place run, --print-only stdout, original + applied --diff, Apply result) must parse with go/parser; when an error is reported instead, stderr must name the file, the file must be byte-identical and no new content may have been printed for it (an unchanged echo under --print-only is not an emission). " +
 			"One case in six uses a 239-byte file name (no temporary sibling can be created next to it); four templates make the file shorter. " +
@@ -208,7 +208,7 @@ var props = map[string]propCfg{
 		MinNontriv: 300,
 	},
 	"C06": {
-		Quick:    tierCfg{Shards: 8, Checks: 250, Timeout: 4 * time.Minute},
+		Quick:    tierCfg{Shards: 8, Checks: 500, Timeout: 4 * time.Minute},
 		Thorough: tierCfg{Shards: 16, Checks: 5000, Timeout: 40 * time.Minute},
 		Rule: "1-3 changes (a pattern mined from real code with metavariables / elisions / '+import' lines; the same with a package or import guard line that no file satisfies: context / '-' / named / dot import of a unique path or name, 'package' of a unique name; hand-written changes around a callee name that occurs nowhere else), two thirds with a description, in 1-2 patch files or on stdin; 1-5 Go files (unrelated real files, the file a change was mined from - in which its code pattern occurs -, files with a generated-code header), three quarters of them deformed so that gofmt / the import sorter / a line-ending normaliser would alter them (CRLF on all or some lines, no final newline, extra final newlines, trailing blanks, space indentation, over-indentation, tight operators, semicolons, doubled blank lines, odd comments, legacy '// +build' lines, unsorted and duplicated imports, one-line import groups); drawn file / directory / '...' arguments in relative, absolute and mixed spellings with duplicates; drawn -v, --skip-generated, --skip-import-processing. " +
 			"'No change applies to the file' is decided without gopatch, per change: reference matcher finds no site, no inadmissible match, no ambiguity (mined); the callee name is absent from the file (hand-written); the guard cannot hold (guarded; the pattern may be present). Only files for which every change is so decided are judged; matching files stay in the run. " +
